@@ -136,7 +136,7 @@ def encDoc (d : Doc) : List String :=
 /-! oracle table -/
 
 structure Table where
-  mk : List (Bytes × Bytes) := []
+  mik : List (Bytes × Bytes) := []
   s4 : List Bytes := []
   s5 : List Bytes := []
   p5 : List Bytes := []
@@ -145,7 +145,7 @@ structure Table where
   sm : List (Bytes × Smc) := []
 
 def Table.oracle (t : Table) : Oracle :=
-  { mikey := fun b => t.mk.lookup b
+  { mikey := fun b => t.mik.lookup b
     h264sps := fun b => t.s4.contains b
     h265sps := fun b => t.s5.contains b
     h265pps := fun b => t.p5.contains b
@@ -172,7 +172,7 @@ def addEntry (t : Table) (e : String) : Option Table :=
       match unhex blob with
       | none => none
       | some b =>
-        if kind == "mk" then (unhex info).map fun e => { t with mk := (b, e) :: t.mk }
+        if kind == "mk" then (unhex info).map fun e => { t with mik := (b, e) :: t.mik }
         else if kind == "ac" then
           match (pAsc.run (info.splitOn ",")) with
           | some (a, []) => some { t with ac := (b, a) :: t.ac }
